@@ -181,10 +181,9 @@ func (tc *typeConv) ctorFor(t types.Type) *anyCtor {
 	case *types.Slice:
 		payload = true
 	}
-	short := key
-	if i := strings.LastIndex(short, "/"); i >= 0 {
-		short = short[i+1:]
-	}
+	short := types.TypeString(t, func(p *types.Package) string { return p.Name() })
+	short = strings.ReplaceAll(short, "[]", "Sl")
+	short = strings.ReplaceAll(short, "*", "P")
 	if payload {
 		c.Payload = tc.sortOf(t)
 		c.Name = "A_" + sanitize(short)
